@@ -485,14 +485,29 @@ def valEntry (intKeys : Bool) (rec : CVal → Res (Option CVal)) (kv : CVal × C
     | some k, some x => some (k, x)
     | _, _ => none)
 
-/-- one declared option of a model: absent → its default (a required one is an error),
-    present → validated (after the `turn_into_list` before-validator) in the MODEL's own mode -/
+/-- the `validity_without_timezone_is_utc` after-validator (`KSKKey.valid_from` / `valid_until`), run on
+    the VALIDATED value: `v.replace(tzinfo=timezone.utc)` when `v` is a datetime without time zone —
+    the same wall-clock fields, offset 0 (`us` already reads a naive value as if UTC, so it is kept) —,
+    anything else (`None`, an aware datetime) returned as it is.  It cannot raise. -/
+def applyNaiveIsUtc (f : Field) (v : CVal) : CVal :=
+  if f.naiveIsUtc then (match v with | .ts us none => .ts us (some 0) | _ => v) else v
+
+/-- the value of one PRESENT option: before-validators, the field type in the given mode, then — only
+    when that succeeded — the after-validators (pydantic's `function-after` schema) -/
+def valFieldValue (rec : Bool → STy → CVal → Res (Option CVal)) (strict : Bool) (f : Field) (x : CVal) :
+    Res (Option CVal) := do
+  let y ← rec strict f.ty (applyStrToList f x)
+  pure (y.map (applyNaiveIsUtc f))
+
+/-- one declared option of a model: absent → its default, NOT validated and so not passed through
+    the after-validators either (a required one is an error);
+    present → validated (`valFieldValue`) in the MODEL's own mode -/
 def valField (rec : Bool → STy → CVal → Res (Option CVal)) (s : ObjSchema) (kvs : List (CVal × CVal))
     (f : Field) : Res (Option (CVal × CVal)) :=
   match CVal.lookupStr kvs f.name with
   | none => pure (if f.required then none else f.default.map fun d => (CVal.str f.name, d))
   | some x => do
-    let y ← rec s.strict f.ty (applyStrToList f x)
+    let y ← valFieldValue rec s.strict f x
     pure (y.map fun y => (CVal.str f.name, y))
 
 /-- unknown / non-string keys: refused unless the model allows extras (then they are dropped) -/
